@@ -32,7 +32,8 @@ func genPeer(rng *rand.Rand, allowRaw bool) PeerSpec {
 
 func genSpec(rng *rand.Rand, id int) Spec {
 	sp := Spec{ID: id, Seed: rng.Uint64(), Procs: pick(rng, []int{1, 2, 4, 8}), Noise: rng.IntN(4),
-		WriteTimeout: pick(rng, []int{300, 600}), Hammer: rng.IntN(5) < 2, During: rng.IntN(2) == 0}
+		WriteTimeout: pick(rng, []int{300, 600}), Hammer: rng.IntN(5) < 2, During: rng.IntN(2) == 0,
+		SlowCbUs: pick(rng, []int{0, 0, 40, 250})}
 	r := rng.IntN(100)
 	switch {
 	case r < 45:
@@ -137,7 +138,7 @@ func sweep(rng *rand.Rand) []Spec {
 					}
 					for _, during := range []bool{false, true} {
 						sp := Spec{ID: id, Target: target, ClosePoint: cp, During: during, Procs: pick(rng, []int{1, 2, 4, 8}),
-							WriteTimeout: 400, Seed: rng.Uint64(), Noise: rng.IntN(3), Hammer: rng.IntN(3) == 0,
+							WriteTimeout: 400, Seed: rng.Uint64(), Noise: rng.IntN(3), Hammer: rng.IntN(3) == 0, SlowCbUs: pick(rng, []int{0, 100, 250}),
 							Peers: []PeerSpec{{Kind: "client", Mode: mode, Proto: proto}}}
 						if during {
 							sp.DelayUs = rng.IntN(800)
@@ -465,7 +466,7 @@ func Run(ctx *corr.Ctx) {
 		sp := genSpec(ctx.Rng, 100000+i)
 		specs = append(specs, sp)
 	}
-	budget := time.Duration(ctx.N(42, 600)) * time.Second
+	budget := time.Duration(ctx.N(36, 600)) * time.Second
 	par := ctx.N(5, 6)
 	var cleanServer [][]string
 	handle := func(sp Spec, oc *Outcome, crash string) {
@@ -497,7 +498,7 @@ func Run(ctx *corr.Ctx) {
 		for _, f := range []struct {
 			on   bool
 			name string
-		}{{sp.Hammer, "with:hammer"}, {sp.Joiner, "with:joiner"}, {sp.PeerTeardown, "with:peer-teardown"}, {sp.ServerKind == "stall", "with:stalled-server"}, {sp.ServerKind == "mute", "with:mute-server"}} {
+		}{{sp.Hammer, "with:hammer"}, {sp.Joiner, "with:joiner"}, {sp.PeerTeardown, "with:peer-teardown"}, {sp.ServerKind == "stall", "with:stalled-server"}, {sp.ServerKind == "mute", "with:mute-server"}, {sp.SlowCbUs > 0, "with:slow-callbacks"}} {
 			if f.on {
 				ctx.Dist(f.name)
 			}
